@@ -346,7 +346,78 @@ def run(ck, F):
             return _conjuncts(c.get('l')) + _conjuncts(c.get('r'))
         return [c]
 
-    def _guarded(idx, base, N, guards):
+    def _local_init(f, ref):
+        # the initialiser of a local that is never assigned afterwards (const or not), else None
+        if ref.get('k') != 'ref' or ref.get('kind') != 'local':
+            return None
+        init = None
+        for n in walk(f.get('body')):
+            if n.get('k') == 'decl':
+                for v in n.get('vars', []):
+                    if v.get('id') == ref.get('id') and v.get('name') == ref.get('name'):
+                        init = v.get('init')
+            tgt = None
+            if n.get('k') == 'binop' and n.get('op') in ('=', '+=', '-=', '*=', '/=', '|=', '&=', '^=', '<<=', '>>=', '%='):
+                tgt = _strip(n.get('l'))
+            elif n.get('k') == 'unop' and ('++' in n.get('op', '') or '--' in n.get('op', '')):
+                tgt = _strip(n.get('e'))
+            if tgt and tgt.get('k') == 'ref' and tgt.get('kind') == 'local' and tgt.get('id') == ref.get('id') and tgt.get('name') == ref.get('name'):
+                return None
+        return init
+    _callers = {}
+
+    def _call_sites(fid):
+        if not _callers:
+            for g in F.fn.values():
+                for n in walk(g.get('body')):
+                    if n.get('k') == 'call' and (n.get('callee') or {}).get('id'):
+                        _callers.setdefault(n['callee']['id'], []).append((g, n))
+            _callers[None] = []
+        return _callers.get(fid, [])
+
+    def _value_set(x, f, depth=0):
+        # the finite set of values an integer expression can take, from constants, never-reassigned locals and -- for a parameter --
+        # the arguments at every call site of the function; None when it is not such a set
+        x = _strip(x)
+        if not x or depth > 4:
+            return None
+        if 'cv' in x:
+            return {int(x['cv'])}
+        k = x.get('k')
+        if k == 'ref' and x.get('kind') == 'local':
+            init = _local_init(f, x)
+            return _value_set(init, f, depth + 1) if init is not None else None
+        if k == 'ref' and x.get('kind') == 'parm':
+            if f.get('virtual') or f.get('lambda_call'):
+                return None
+            sites = _call_sites(f['id'])
+            if not sites:
+                return None
+            out = set()
+            for g, n in sites:
+                args = n.get('args') or []
+                if x.get('idx') is None or x['idx'] >= len(args):
+                    return None
+                vs = _value_set(args[x['idx']], g, depth + 1)
+                if vs is None:
+                    return None
+                out |= vs
+            return out
+        if k == 'binop' and x.get('op') in ('+', '-', '*', '^', '|', '&'):
+            a, b = _value_set(x.get('l'), f, depth + 1), _value_set(x.get('r'), f, depth + 1)
+            if a is None or b is None or len(a) * len(b) > 64:
+                return None
+            op = x['op']
+            return {{'+': i + j, '-': i - j, '*': i * j, '^': i ^ j, '|': i | j, '&': i & j}[op] for i in a for j in b}
+        if k == 'unop' and x.get('op') == '!':
+            a = _value_set(x.get('e'), f, depth + 1)
+            return None if a is None else {int(not i) for i in a}
+        if k in ('cond', 'condop', 'conditional'):
+            a, b = _value_set(x.get('then') or x.get('a'), f, depth + 1), _value_set(x.get('else') or x.get('b'), f, depth + 1)
+            return None if a is None or b is None else a | b
+        return None
+
+    def _guarded(idx, base, N, guards, f=None):
         # a test `idx < bound` (bound a constant <= N, or the size of the table itself) that holds where the subscript is evaluated
         bi, bb = _bare(idx), _bare(base)
         for g in guards:
@@ -357,6 +428,9 @@ def run(ck, F):
                 if _bare(lo) != bi:
                     continue
                 h = _strip(hi)
+                if f is not None and h.get('k') == 'ref' and h.get('kind') == 'local' and _local_init(f, h) is not None:
+                    hi = _local_init(f, h)      # a bound kept in a local that is never reassigned
+                    h = _strip(hi)
                 cvh = h.get('cv', (hi or {}).get('cv'))
                 if cvh is not None and int(cvh) + (0 if strict else 1) <= N:
                     return True
@@ -419,8 +493,12 @@ def run(ck, F):
                     vals = [int(e['value']) for e in F.enums[en].get('enumerators', [])]
                     ok = bool(vals) and all(0 <= v < N for v in vals)
                     why = f'value of {contracts.short(en)} (enumerators {min(vals) if vals else "-"}..{max(vals) if vals else "-"})'
-                elif _guarded(idx, base, N, guards):
+                elif _guarded(idx, base, N, guards, f):
                     ok, why = True, 'tested against the extent on the way'
+                else:
+                    vs = _value_set(idx, f)
+                    if vs is not None and vs:
+                        ok, why = all(0 <= v < N for v in vs), f'one of {sorted(vs)[:8]} (constants, through never-reassigned locals and the arguments of every call)'
             ck.check(R9, f'{site[0]}:{site[1]} {b.get("name") or "?"}[{site[3]}]', ok,
                      f'{f["id"]} (line {n.get("ln")}): subscript of `{b.get("name")}` (extent {N}) by an index that is {why}: nothing keeps it '
                      f'below {N}', loc=f['loc'], fn=f['id'])
